@@ -9,7 +9,7 @@ from .. import gen, build, mcase, monitors, oracles
 from ..mapmodel import MapModel
 
 ID = "C04"
-CASES = {"quick": 3000, "thorough": 300000}
+CASES = {"quick": 10000, "thorough": 300000}
 MIN_CASES_PER_SHARD = 50
 CASE_TIMEOUT = 60
 RULE = ("one case = generated map (one-way streets, dead ends, self-listed neighbours, zero-length roads; 15 % with linked parallel edges; 15 % "
@@ -115,7 +115,7 @@ def check_case(ctx, case):
 
 
 TECHNIQUE = "runtime monitoring: oracle over the reported best path against the raw graph after every public call of generated histories (both backends)"
-LEVEL_TEXT = ("3k (quick) / 300k (thorough) histories; every state of every reported best path must be a node/directed edge of the raw graph and every "
+LEVEL_TEXT = ("{Q} (quick) / {T} (thorough) histories; every state of every reported best path must be a node/directed edge of the raw graph and every "
               "consecutive pair a move the graph offers; the nodes-only view must be computable, without immediate repeats and pairwise adjacent "
               "(maps without linked edges, no jump used). Held-on-observed.")
 LEVEL_NOTE = "Trusted: the raw-graph adjacency of the case. Linked parallel edges only on InMemMap (SqliteMap needs an R-tree scan to create them)."
